@@ -1033,6 +1033,11 @@ package server
 //@ func Server.cmdGET
 //@   frame-by-effects
 //@   entry-assume s != nil && msg != nil && len(msg.Args) > 0 && s.config != nil
+// GET (C01): a read changes nothing; a missing key or id is answered with null (RESP) or an error (JSON)
+//@   modifies steps, perCall
+//@   ensures [read-only] *s.cols == old(*s.cols) && colsUntouched()
+//@   ensures [get.missing] result1 == nil && msg.OutputType == RESP && len(msg.Args) >= 3 && ((*s.cols)[msg.Args[1]] == nil || (*s.cols)[msg.Args[1]].objs[msg.Args[2]] == nil) ==> result0 == respNull()
+//@   ensures [get.missing.json] msg.OutputType == JSON && len(msg.Args) >= 3 && ((*s.cols)[msg.Args[1]] == nil || (*s.cols)[msg.Args[1]].objs[msg.Args[2]] == nil) ==> result1 != nil
 //@ func Server.cmdJdel
 //@   frame-by-effects
 //@   entry-assume s != nil && msg != nil && len(msg.Args) > 0 && s.config != nil
